@@ -23,7 +23,7 @@ def klass(kind):
     """Semantic class of an exception kind."""
     if kind in FAILURE_KINDS or kind == "forced" or kind == "mismatch":
         return "failure"
-    if kind in ERROR_KINDS or kind == "setup_error":
+    if kind in ERROR_KINDS or kind in ("setup_error", "empty_multi"):
         return "error"
     if kind in SKIP_KINDS:
         return "skip"
@@ -71,7 +71,7 @@ class Gen:
         a = {"a": "raise", "i": self.nid(), "kind": k}
         if k == "multi":
             a["sub"] = [{"kind": self.draw(st.sampled_from(FAILURE_KINDS + ERROR_KINDS + SKIP_KINDS)), "i": self.nid()}
-                        for _ in range(self.draw(st.integers(2, 3)))]
+                        for _ in range(self.draw(st.sampled_from([2, 3, 2, 1, 0])))]
         self.raises += 1
         return a
 
@@ -212,7 +212,7 @@ class Model:
     def note(self, kind, i, stage):
         self.raised.append({"kind": kind, "i": i, "stage": stage, "handlers": self.handlers})
         k = klass(kind)
-        if kind == "setup_error":
+        if kind in ("setup_error", "empty_multi"):
             return
         if k in ("failure", "error", "nonexc"):
             self.gen_items.append({"type": "traceback", "marker": i, "base": "traceback", "t": len(self.log)})
@@ -236,6 +236,8 @@ class Model:
             if a["kind"] == "multi":
                 for s in a["sub"]:
                     self.note(s["kind"], s["i"], stage)
+                if not a["sub"]:
+                    self.note("empty_multi", a["i"], stage)      # reported as an ordinary error
             else:
                 self.note(a["kind"], a["i"], stage)
             return False
